@@ -401,8 +401,39 @@ func (s *vfSim) addPeer(name string) *vfPeer {
 	return p
 }
 
+// addSecondLink connects a second convergence layer to a peer that is already connected (a neighbour
+// discovered with both its MTCP and its TCPCLv4 listener): another sender with the same peer endpoint ID
+// and another address. Its transmissions are logged under the peer's name; it shares the first link's
+// scripted outcomes and disappears together with it.
+func (s *vfSim) addSecondLink(name string) *vfPeer {
+	first, ok := s.peers[name]
+	if !ok || atomic.LoadInt32(&first.gone) != 0 {
+		return nil
+	}
+	if p, ok := s.peers[name+"#2"]; ok && atomic.LoadInt32(&p.gone) == 0 {
+		return p
+	}
+	p := &vfPeer{sim: s, name: name, eid: first.eid, addr: fmt.Sprintf("vf://%s-link2/%d/%d", name, s.gen, len(s.trace)), ch: make(chan cla.ConvergenceStatus)}
+	first.mu.Lock()
+	p.failAll = first.failAll
+	first.mu.Unlock()
+	s.peers[name+"#2"] = p
+	s.core.RegisterConvergable(p)
+	s.waitRegistered(p.addr)
+	select {
+	case p.ch <- cla.NewConvergencePeerAppeared(p, p.eid):
+	case <-time.After(20 * time.Second):
+		s.failf("sim.stuck", "the node does not take the PeerAppeared status (20 s)")
+	}
+	s.barrier(p)
+	return p
+}
+
 // dropPeer lets a peer disappear the way a real CLA reports it.
 func (s *vfSim) dropPeer(name string) {
+	if !strings.HasSuffix(name, "#2") {
+		s.dropPeer(name + "#2")
+	}
 	p, ok := s.peers[name]
 	if !ok || atomic.LoadInt32(&p.gone) != 0 {
 		return
@@ -561,10 +592,12 @@ func (s *vfSim) setScript(name string, outcomes ...bool) {
 }
 
 func (s *vfSim) setFailAll(name string, v bool) {
-	if p, ok := s.peers[name]; ok {
-		p.mu.Lock()
-		p.failAll = v
-		p.mu.Unlock()
+	for _, n := range []string{name, name + "#2"} {
+		if p, ok := s.peers[n]; ok {
+			p.mu.Lock()
+			p.failAll = v
+			p.mu.Unlock()
+		}
 	}
 }
 
